@@ -35,7 +35,7 @@ ASSUMPTIONS = [
     "reference implementations in vlib/ref/dnssec.py and the canonical-form flags of the type table (RFC 4034 §6.2 minus NSEC)",
     "NSEC TTL and pre-existing NSEC/RRSIG records are outside the statement and not judged",
 ]
-REQUIRED = ["mon.zonemd_signature_rich", "mon.rrsig_input_relativized", "mon.canonical_form", "mon.rrsig_input", "mon.ds", "mon.key_tag", "mon.nsec3", "mon.zonemd", "mon.nsec_chain", "mon.signer_callback"]
+REQUIRED = ["mon.nsec_chain_resigned", "mon.zonemd_signature_rich", "mon.rrsig_input_relativized", "mon.canonical_form", "mon.rrsig_input", "mon.ds", "mon.key_tag", "mon.nsec3", "mon.zonemd", "mon.nsec_chain", "mon.signer_callback"]
 BUDGET = {"quick": 40.0, "thorough": 420.0}
 
 
@@ -335,6 +335,38 @@ def check_zone(ctx, rng):
             missing = want_signed - got_signed
             kinds = sorted({("glue-or-occluded" if not any(e[0] == w[0] for w in want_signed) else "at-cut" if e[0] in cuts else "other") for e in extra} | {"missing" for _ in missing})
             ctx.violation(f"signer-callback-rrsets-differ:{'+'.join(kinds)}", f"extra={[(RN.to_text(a), b) for a, b in extra]} missing={[(RN.to_text(a), b) for a, b in missing]}", case)
+        # --- the signed zone is edited and signed again: every NSEC that has to change is REPLACED (one NSEC per name), the
+        # chain is again the reference chain of the new content
+        new_owner = (b"zzz-new",) + tuple(mz.origin)
+        if RN.fits(new_owner) and tuple(RN.fold(l) for l in new_owner) not in {tuple(RN.fold(l) for l in e) for e in owners_types}:
+            ctx.count("mon.nsec_chain_resigned")
+            with vz.writer() as txn:
+                txn.add(GZ.lib_name(new_owner, mz.origin, relativize), 300, dns.rdata.from_text("IN", "A", "192.0.2.200"))
+                txn.add(GZ.lib_name(tuple(mz.origin), mz.origin, relativize), 300, dns.rdata.from_text("IN", "TYPE65400", "\\# 1 00"))
+                dns.dnssec.sign_zone(vz, txn=txn, keys=None, add_dnskey=False, rrset_signer=lambda t, r: None)
+            ot2 = {k: set(v) for k, v in owners_types.items()}
+            ot2[new_owner] = {1}
+            apex_key = next(k for k in ot2 if tuple(RN.fold(l) for l in k) == tuple(RN.fold(l) for l in mz.origin))
+            ot2[apex_key].add(65400)
+            want2 = {tuple(RN.fold(l) for l in o): (tuple(RN.fold(l) for l in nx), RD.bitmap(ty)) for o, nx, ty in RD.nsec_chain(mz.origin, ot2)}
+            got2 = {}
+            with vz.reader() as txn:
+                for name in txn.iterate_names():
+                    rds = txn.get(name, dns.rdatatype.NSEC)
+                    if rds is None:
+                        continue
+                    k = tuple(RN.fold(l) for l in name.derelativize(origin).labels)
+                    if len(rds) != 1:
+                        ctx.violation("nsec-chain-several-nsec-at-name:after-signing-again", f"{RN.to_text(k)}: {len(rds)} NSEC records", case)
+                        got2 = None
+                        break
+                    import io
+                    f = io.BytesIO()
+                    dns.rdtypes.util.Bitmap(rds[0].windows).to_wire(f)
+                    got2[k] = (tuple(RN.fold(l) for l in rds[0].next.derelativize(origin).labels), f.getvalue())
+            if got2 is not None and got2 != want2:
+                bad = [RN.to_text(k) for k in set(got2) | set(want2) if got2.get(k) != want2.get(k)]
+                ctx.violation("nsec-chain-differs-after-signing-again", f"names {bad[:6]}", case)
     except Exception as e:
         ctx.violation("zone-dnssec-raised:" + core.exc_sig(e), repr(e), case)
 
